@@ -1,0 +1,34 @@
+//go:build verif
+
+// Contracts for package graph, checked by /verif/govc (see /verif/DESIGN.md).
+// Comments and import anchors only; compiled only with -tags verif.
+package graph
+
+import (
+	openfgav1 "github.com/openfga/api/proto/openfga/v1"
+)
+
+var _ *openfgav1.Userset
+
+// ---------------------------------------------------------------------------------------------------------------
+// C05: classification of a back edge. An edge "needs a tuple" when it is a tuple-to-userset edge or a direct edge
+// into a userset; a cycle is a tuple cycle iff some edge of the path from the first edge leaving nodeID needs one.
+
+//@ spec tupleHop(e *WeightedAuthorizationModelEdge) bool =
+//@   e.edgeType == TTUEdge || (e.edgeType == DirectEdge && e.to.nodeType == SpecificTypeAndRelation)
+
+//@ spec wfPath(p []*WeightedAuthorizationModelEdge) bool =
+//@   forall i int :: 0 <= i && i < len(p) ==> p[i] != nil && p[i].from != nil && p[i].to != nil
+
+//@ func (*WeightedAuthorizationModelGraph).isTupleCycle
+//@   props C05
+//@   requires wfPath(ancestorPath)
+//@   ensures exact: result == (exists i int, j int :: 0 <= i && i <= j && j < len(ancestorPath)
+//@                              && ancestorPath[i].from.uniqueLabel == nodeID && tupleHop(ancestorPath[j]))
+//@   loop 1 invariant tracking: startTracking == (exists i int :: 0 <= i && i < $i && ancestorPath[i].from.uniqueLabel == nodeID)
+//@   loop 1 invariant none_yet: forall i int, j int :: 0 <= i && i <= j && j < $i && ancestorPath[i].from.uniqueLabel == nodeID ==> !tupleHop(ancestorPath[j])
+
+//@ func (*WeightedAuthorizationModelGraph).isNodeTupleCycleReference
+//@   props C04 C05
+//@   ensures exact: result == (exists i int :: 0 <= i && i < len(tupleCycles) && tupleCycles[i] == nodeID)
+//@   loop 1 invariant forall i int :: 0 <= i && i < $i ==> tupleCycles[i] != nodeID
